@@ -168,7 +168,7 @@ func (s *State) wf(v Value) *Term {
 		case SlV:
 			z := BVi(0, 64)
 			cs = append(cs, SLe(z, x.Len), SLe(x.Len, x.Cap), SLe(x.Cap, maxLen), SLe(z, x.Off), SLe(x.Off, maxLen),
-				ULt(x.Arr, s.Alloc), Implies(Eq(x.Arr, BVi(0, 32)), And(Eq(x.Cap, z), Eq(x.Off, z))))
+				Or(ULt(x.Arr, s.Alloc), ULe(BVu(0x80000000, 32), x.Arr)), Implies(Eq(x.Arr, BVi(0, 32)), And(Eq(x.Cap, z), Eq(x.Off, z))))
 		case PtrV:
 			if x.L.Kind == LHeap && len(x.L.Path) == 0 {
 				cs = append(cs, ULt(x.L.Ref, s.Alloc))
@@ -211,7 +211,7 @@ func (s *State) allocRef() *Term {
 	r := s.Alloc
 	s.Alloc = Add(s.Alloc, BVi(1, 32))
 	// no wrap-around of the allocation counter
-	s.assume(ULt(r, BVu(0xfffffff0, 32)))
+	s.assume(ULt(r, BVu(0x00fffff0, 32)))
 	s.assume(Neq(r, BVi(0, 32)))
 	return r
 }
@@ -274,7 +274,13 @@ func (s *State) load(l Loc) Value {
 		var t *Term
 		switch l.Kind {
 		case LHeap:
-			t = Select(s.heap(name, ArraySort(RefSort, full)), l.Ref)
+			if af, ek, el := arrayFieldOf(prefix, lf, ty); ek != "" && len(idxs) == 0 {
+				// array field of a heap struct: lives in the element family
+				en := "E|" + ek + "|" + el
+				t = Select(s.heap(en, ArraySort(RefSort, lf.Sort)), embRef(key, af, l.Ref))
+			} else {
+				t = Select(s.heap(name, ArraySort(RefSort, full)), l.Ref)
+			}
 		case LElem:
 			t = Select(Select(s.heap(name, ArraySort(RefSort, ArraySort(IntSort, full))), l.Arr), l.Idx)
 		case LGlobal:
@@ -288,6 +294,42 @@ func (s *State) load(l Loc) Value {
 	v := fromLeaves(ty, ts)
 	s.assume(s.wf(v))
 	return v
+}
+
+// arrayFieldOf tells whether leaf lf of a location of type ty (reached by field path
+// `prefix` from the root struct) lies in an array-typed field; it returns the field path of
+// the array relative to the root, the element family key and the element leaf name.
+func arrayFieldOf(prefix string, lf Leaf, ty types.Type) (arrField, elemKey, elemLeaf string) {
+	if lf.ElemKey == "" {
+		return "", "", ""
+	}
+	if lf.ArrField != "" {
+		return joinName(prefix, lf.ArrField), lf.ElemKey, lf.ElemLeaf
+	}
+	// ty itself is the array (the location is the array field)
+	if _, ok := ty.Underlying().(*types.Array); ok && prefix != "" {
+		return prefix, lf.ElemKey, lf.ElemLeaf
+	}
+	return "", "", ""
+}
+
+var embIDs = map[string]int{}
+
+// embRef is the reference under which the array field `field` of the object ref of struct
+// family key lives in the element family. References of allocated objects are below 2^24;
+// embedded references have the top bit set and carry a field id, so they are distinct from
+// each other and from every allocated reference.
+func embRef(key, field string, ref *Term) *Term {
+	k := key + "|" + field
+	id, ok := embIDs[k]
+	if !ok {
+		id = len(embIDs) + 1
+		if id > 127 {
+			unsup("too many distinct array fields")
+		}
+		embIDs[k] = id
+	}
+	return BOr(BVu(0x80000000|uint64(id)<<24, 32), BAnd(ref, BVu(0x00ffffff, 32)))
 }
 
 func nestedStore(arr *Term, idxs []*Term, val *Term) *Term {
@@ -326,6 +368,12 @@ func (s *State) store(l Loc, v Value) {
 		}
 		switch l.Kind {
 		case LHeap:
+			if af, ek, el := arrayFieldOf(prefix, lf, ty); ek != "" && len(idxs) == 0 {
+				en := "E|" + ek + "|" + el
+				h := s.heap(en, ArraySort(RefSort, lf.Sort))
+				s.setHeap(en, Store(h, embRef(key, af, l.Ref), vs[i]))
+				continue
+			}
 			h := s.heap(name, ArraySort(RefSort, full))
 			s.setHeap(name, Store(h, l.Ref, nestedStore(Select(h, l.Ref), idxs, vs[i])))
 		case LElem:
